@@ -26,6 +26,7 @@ RULE = (
     "top-level union given as raw, parsed as a whole, and as separately parsed records sharing a name table with cross "
     "references; two/three readers open at once (headers parsed first, records pulled alternately) over files that define "
     "the same type names differently."
+    ' Scenario units also cover: 24 different schemas parsed, written and dropped in a row (nothing remembered per short-lived schema object); readers and block_readers created with four different option sets before any is consumed, every ordered pair; two Writers alive at once on distinct streams with alternating writes, three sync intervals.'
 )
 ASSUMPTIONS = [
     "expected values from mc/ref/conform.normalise; canonical form from mc/ref/canon (Apache vectors)",
